@@ -273,12 +273,15 @@ class lengthtest(Command):
         a = tex.readDimen()
         relation = next(tex.itertokens())
         b = tex.readDimen()
+        # Lengths that are equal in TeX may differ in their last bits here
+        # (1cm and 10mm): they are neither smaller nor larger
+        equal = abs(a - b) < 1e-6
         if relation == '<':
-            return [_true() if a < b else _false()]
+            return [_true() if a < b and not equal else _false()]
         elif relation == '>':
-            return [_true() if a > b else _false()]
+            return [_true() if a > b and not equal else _false()]
         elif relation == '=':
-            return [_true() if abs(a - b) < 1e-6 else _false()]
+            return [_true() if equal else _false()]
         raise ValueError('"%s" is not a valid relation' % relation)
 
 
